@@ -220,19 +220,19 @@ Definition order_of (dm : dmessage) : byte_order :=
 Definition msg_head (m : message) := (m_canid m, m_name m, m_size m, m_sender m, m_receivers m, m_order m).
 Definition dmsg_head (dm : dmessage) := (dm_id dm, dm_name dm, dm_size dm, dm_tx dm, recs_of dm, order_of dm).
 
-Lemma import_message_inv : forall st msgs nodes dm st' msgs',
-  import_message (st, msgs) nodes dm = Ok (st', msgs') ->
+Lemma import_message_inv : forall env st msgs nodes dm st' msgs',
+  import_message env (st, msgs) nodes dm = Ok (st', msgs') ->
   exists m sigs,
     msgs' = msgs ++ [m] /\ msg_head m = dmsg_head dm /\ m_signals m = sigs /\
-    import_message_signals st (length msgs) dm = Ok (st', sigs) /\
-    m_desc m = match lookup Z.eqb (dm_id dm) (is_msg_desc st) with Some d => d | None => EmptyString end /\
+    import_message_signals env st (length msgs) dm = Ok (st', sigs) /\
+    m_desc m = match lookup Z.eqb (dm_id dm) (ie_msg_desc env) with Some d => d | None => EmptyString end /\
     m_attrs m = [] /\ m_cycle m = 0 /\ m_delay m = 0 /\ m_startdelay m = 0 /\ m_sendtype m = 0 /\
     forallb (fun r => mem_str r (map n_name nodes)) (recs_of dm) = true /\
     mem_str (dm_tx dm) (map n_name nodes) = true /\
     dm_size dm <= 8 /\ mem_z (dm_id dm) (map m_canid msgs) = false /\
     forallb (fun s => bo_eqb (ds_order s) (order_of dm)) (sorted_signals dm) = true.
 Proof.
-  intros st msgs nodes dm st' msgs' H. unfold import_message in H.
+  intros env st msgs nodes dm st' msgs' H. unfold import_message in H.
   fold (sorted_signals dm) in H. fold (order_of dm) in H.
   destruct (forallb (fun s => bo_eqb (ds_order s) (order_of dm)) (sorted_signals dm)) eqn:Eo; cbn [negb] in H; [|discriminate].
   change (filter (fun r : string => negb (r =? dummy_node)%string)
@@ -246,14 +246,14 @@ Proof.
   eexists; exists sigs. repeat split; try reflexivity; try assumption. lia.
 Qed.
 
-Lemma import_messages_fold : forall nodes dms st msgs st' msgs',
-  fold_left (fun acc dm => do a <- acc; import_message a nodes dm) dms (Ok (st, msgs)) = Ok (st', msgs') ->
+Lemma import_messages_fold : forall env nodes dms st msgs st' msgs',
+  fold_left (fun acc dm => do a <- acc; import_message env a nodes dm) dms (Ok (st, msgs)) = Ok (st', msgs') ->
   map msg_head msgs' = map msg_head msgs ++ map dmsg_head dms.
 Proof.
-  intros nodes dms. induction dms as [|dm r IH]; intros st msgs st' msgs' H; cbn [fold_left] in H.
+  intros env nodes dms. induction dms as [|dm r IH]; intros st msgs st' msgs' H; cbn [fold_left] in H.
   - inversion H; subst. cbn. rewrite app_nil_r. reflexivity.
   - cbn [bind] in H.
-    destruct (import_message (st, msgs) nodes dm) as [[st1 msgs1]|w] eqn:E.
+    destruct (import_message env (st, msgs) nodes dm) as [[st1 msgs1]|w] eqn:E.
     + apply IH in H. apply import_message_inv in E.
       destruct E as [m [sigs [Hm [Hh _]]]]. subst msgs1.
       rewrite H, map_app. cbn. rewrite Hh, <- app_assoc. reflexivity.
@@ -261,37 +261,30 @@ Proof.
 Qed.
 
 (* ---- the top-level structure of `import` ---- *)
+Definition doc_env (d : doc) (se : list (key * Z)) : ienv :=
+  let '(_, (nd, md, sd)) := import_comments (d_comments d) in
+  mkienv nd md sd se (import_ext_muxes (d_extmuxes d)).
+
 Lemma import_inv : forall d b, import d = Ok b ->
-  exists bdesc st0 st3 nodes st4 msgs b1,
-    import_comments (d_comments d) = (bdesc, st0) /\
-    import_nodes (is_node_desc st3) (d_nodes d) = Ok nodes /\
-    is_node_desc st3 = is_node_desc st0 /\ is_msg_desc st3 = is_msg_desc st0 /\ is_sig_desc st3 = is_sig_desc st0 /\
-    fold_left (fun acc dm => do a <- acc; import_message a nodes dm) (d_messages d) (Ok (st3, [])) = Ok (st4, msgs) /\
-    import_attributes (is_sigmap st4) d (mkbus (d_filename d) bdesc [] nodes (is_enums st4) msgs) = Ok b1 /\
+  exists reg es se nodes st4 msgs b1,
+    fold_left (fun acc vt => do r <- acc; import_value_table r vt) (d_valtables d) (Ok []) = Ok reg /\
+    fold_left (fun acc ve => do a <- acc; import_value_encoding (length reg) a ve) (d_valencs d) (Ok (reg, [])) = Ok (es, se) /\
+    import_nodes (ie_node_desc (doc_env d se)) (d_nodes d) = Ok nodes /\
+    fold_left (fun acc dm => do a <- acc; import_message (doc_env d se) a nodes dm) (d_messages d)
+              (Ok (mkistate es [] [], [])) = Ok (st4, msgs) /\
+    import_attributes (is_sigmap st4) d (mkbus (d_filename d) (fst (import_comments (d_comments d))) [] nodes (is_enums st4) msgs) = Ok b1 /\
     b = (if existsb (fun m => String.eqb (m_sender m) dummy_node) (b_messages b1) then b1
          else set_b_nodes b1 (filter (fun n => negb (String.eqb (n_name n) dummy_node)) (b_nodes b1))).
 Proof.
-  intros d b H. unfold import in H.
-  destruct (import_comments (d_comments d)) as [bdesc st0] eqn:Ec.
-  apply bind_ok in H. destruct H as [st1 [H1 H]].
-  apply bind_ok in H. destruct H as [st2 [H2 H]].
+  intros d b H. unfold import in H. unfold doc_env.
+  destruct (import_comments (d_comments d)) as [bdesc [[nd md] sd]] eqn:Ec.
+  apply bind_ok in H. destruct H as [reg [H1 H]].
+  apply bind_ok in H. destruct H as [[es se] [H2 H]].
   apply bind_ok in H. destruct H as [nodes [Hn H]].
   apply bind_ok in H. destruct H as [[st4 msgs] [Hm H]].
   apply bind_ok in H. destruct H as [b1 [Hb H]].
-  assert (Hd1 : is_node_desc st1 = is_node_desc st0 /\ is_msg_desc st1 = is_msg_desc st0 /\ is_sig_desc st1 = is_sig_desc st0).
-  { revert H1. apply (fold_result_inv _ (fun s => is_node_desc s = is_node_desc st0 /\ is_msg_desc s = is_msg_desc st0 /\ is_sig_desc s = is_sig_desc st0));
-      [reflexivity| |auto].
-    intros a x a' Ha Hx. cbn [bind] in Hx. unfold import_value_table in Hx.
-    apply bind_ok in Hx. destruct Hx as [e [_ Hx]]. inversion Hx; subst. exact Ha. }
-  assert (Hd2 : is_node_desc st2 = is_node_desc st0 /\ is_msg_desc st2 = is_msg_desc st0 /\ is_sig_desc st2 = is_sig_desc st0).
-  { revert H2. apply (fold_result_inv _ (fun s => is_node_desc s = is_node_desc st0 /\ is_msg_desc s = is_msg_desc st0 /\ is_sig_desc s = is_sig_desc st0));
-      [reflexivity| |exact Hd1].
-    intros a x a' Ha Hx. cbn [bind] in Hx. unfold import_value_encoding in Hx.
-    destruct (negb (ve_signal x)); [inversion Hx; subst; exact Ha|].
-    destruct (find_in_registry _ _ _); [inversion Hx; subst; exact Ha|].
-    apply bind_ok in Hx. destruct Hx as [e [_ Hx]]. inversion Hx; subst. exact Ha. }
-  exists bdesc, st0, (import_ext_muxes st2 (d_extmuxes d)), nodes, st4, msgs, b1.
-  repeat split; try assumption; try (cbn; apply Hd2).
+  exists reg, es, se, nodes, st4, msgs, b1. cbn [fst snd ie_node_desc] in *.
+  repeat split; try assumption.
   destruct (existsb _ _); inversion H; reflexivity.
 Qed.
 
@@ -307,7 +300,7 @@ Proof.
   intros A S T skel g f l l' Hf H.
   rewrite (map_ext f (fun x => g (skel x))) by assumption.
   rewrite (map_ext f (fun x => g (skel x)) Hf l').
-  rewrite <- !map_map. rewrite H. reflexivity.
+  rewrite <- (map_map skel g l), <- (map_map skel g l'). rewrite H. reflexivity.
 Qed.
 
 Lemma existsb_map : forall {A B} (g : A -> B) p l, existsb p (map g l) = existsb (fun x => p (g x)) l.
@@ -325,12 +318,13 @@ Lemma import_messages_heads : forall d b, import d = Ok b ->
   map msg_head (b_messages b) = map dmsg_head (d_messages d).
 Proof.
   intros d b H. apply import_inv in H.
-  destruct H as [bdesc [st0 [st3 [nodes [st4 [msgs [b1 [_ [_ [_ [_ [_ [Hm [Hb Hbb]]]]]]]]]]]]]].
-  apply import_attributes_skel in Hb. unfold bus_skel in Hb. cbn in Hb.
-  assert (Hk : map msg_skel (b_messages b1) = map msg_skel msgs) by (inversion Hb; assumption).
+  destruct H as [reg [es [se [nodes [st4 [msgs [b1 [_ [_ [_ [Hm [Hb Hbb]]]]]]]]]]]].
+  apply import_attributes_skel in Hb. unfold bus_skel in Hb.
+  cbn [b_name b_desc b_nodes b_enums b_messages] in Hb.
+  assert (Hk : map msg_skel (b_messages b1) = map msg_skel msgs) by congruence.
   assert (Hb' : b_messages b = b_messages b1) by (subst b; destruct (existsb _ _); reflexivity).
   rewrite Hb'. rewrite (map_ext_skel msg_skel head_of_skel msg_head _ msgs msg_head_skel Hk).
-  apply import_messages_fold in Hm. cbn in Hm. exact Hm.
+  apply import_messages_fold in Hm. cbn [map app] in Hm. exact Hm.
 Qed.
 
 (* import_nodes: exactly the file's nodes, in order, plus the placeholder sender when a message names none *)
@@ -340,9 +334,10 @@ Lemma import_nodes_thm : forall d b, import d = Ok b ->
   ++ (if existsb (fun dm => String.eqb (dm_tx dm) dummy_node) (d_messages d) then [dummy_node] else []).
 Proof.
   intros d b H. pose proof (import_messages_heads d b H) as Hh. apply import_inv in H.
-  destruct H as [bdesc [st0 [st3 [nodes [st4 [msgs [b1 [_ [Hn [_ [_ [_ [Hm [Hb Hbb]]]]]]]]]]]]]].
-  apply import_attributes_skel in Hb. unfold bus_skel in Hb. cbn in Hb.
-  assert (Hk : map node_skel (b_nodes b1) = map node_skel nodes) by (inversion Hb; assumption).
+  destruct H as [reg [es [se [nodes [st4 [msgs [b1 [_ [_ [Hn [Hm [Hb Hbb]]]]]]]]]]]].
+  apply import_attributes_skel in Hb. unfold bus_skel in Hb.
+  cbn [b_name b_desc b_nodes b_enums b_messages] in Hb.
+  assert (Hk : map node_skel (b_nodes b1) = map node_skel nodes) by congruence.
   assert (Hnames : map n_name (b_nodes b1) = map n_name nodes).
   { apply (map_ext_skel node_skel (fun k => fst (fst k)) n_name); [reflexivity|assumption]. }
   apply import_nodes_names in Hn.
@@ -353,7 +348,7 @@ Proof.
     assert (Hs : map m_sender (b_messages b1) = map dm_tx (d_messages d)).
     { rewrite (map_ext m_sender (fun m => snd (fst (fst (msg_head m))))) by reflexivity.
       rewrite (map_ext dm_tx (fun m => snd (fst (fst (dmsg_head m))))) by reflexivity.
-      rewrite <- (map_map msg_head), <- (map_map dmsg_head), Hh. reflexivity. }
+      rewrite <- (map_map msg_head (fun h => snd (fst (fst h)))), <- (map_map dmsg_head (fun h => snd (fst (fst h)))), Hh. reflexivity. }
     rewrite <- (existsb_map m_sender (fun s => String.eqb s dummy_node)).
     rewrite <- (existsb_map dm_tx (fun s => String.eqb s dummy_node)). rewrite Hs. reflexivity. }
   rewrite Hsend in Hbb. subst b.
@@ -363,3 +358,428 @@ Proof.
     rewrite <- (filter_map_comm n_name not_dummy). rewrite Hnames, Hn.
     rewrite filter_app, filter_idem. cbn. rewrite app_nil_r. reflexivity.
 Qed.
+
+(* ------------------------------------------------------------------------------------------ *)
+(* signals of a message without multiplexor switch                                              *)
+(* ------------------------------------------------------------------------------------------ *)
+Definition sig_comment (env : ienv) (msgid : Z) (name : string) : string :=
+  match lookup key_eqb (msgid, name) (ie_sig_desc env) with Some d => d | None => EmptyString end.
+
+(* what the file says about one signal, as far as the plain model record shows it *)
+Definition sig_faithful (env : ienv) (msgid : Z) (ds : dsignal) (s : signal) : Prop :=
+  s_name s = ds_name ds /\ s_rel s = get_start_bit ds /\ s_parent s = None /\ s_groups s = [] /\
+  s_desc s = sig_comment env msgid (ds_name ds) /\
+  match lookup key_eqb (msgid, ds_name ds) (ie_sig_enums env) with
+  | None => s_kind s = KStandard /\ s_size s = ds_size ds /\ 0 < ds_size ds /\ s_signed s = ds_signed ds /\
+            s_scale s = ds_factor ds /\ s_offset s = ds_offset ds /\ s_min s = ds_min ds /\
+            s_max s = ds_max ds /\ s_unit s = ds_unit ds
+  | Some e => s_kind s = KEnum
+  end.
+
+Lemma import_signal_spec : forall env st mpos msgid id ds s st',
+  import_signal env st mpos msgid id ds = Ok (s, st') ->
+  s_id s = id /\ sig_faithful env msgid ds (place s (get_start_bit ds) None []).
+Proof.
+  intros env st mpos msgid id ds s st' H. unfold import_signal in H.
+  apply bind_ok in H. destruct H as [[s0 st0] [H0 H]].
+  assert (Hs : s = match lookup key_eqb (msgid, ds_name ds) (ie_sig_desc env) with Some d => set_desc s0 d | None => s0 end)
+    by (inversion H; reflexivity).
+  unfold sig_faithful, sig_comment.
+  destruct (lookup key_eqb (msgid, ds_name ds) (ie_sig_enums env)) as [ei0|] eqn:Ee.
+  - match type of H0 with (if ?c then _ else _) = _ => destruct c; [discriminate|] end.
+    inversion H0; subst s0. subst s.
+    destruct (lookup key_eqb (msgid, ds_name ds) (ie_sig_desc env)); cbn; repeat split; reflexivity.
+  - apply bind_ok in H0. destruct H0 as [s1 [H1 H0]]. inversion H0; subst s0 st0. clear H0.
+    unfold import_standard in H1. destruct (ds_size ds <=? 0) eqn:Ez; [discriminate|].
+    inversion H1; subst s1. subst s.
+    destruct (lookup key_eqb (msgid, ds_name ds) (ie_sig_desc env)); cbn; repeat split; try reflexivity; lia.
+Qed.
+
+Lemma msg_insert_plain : forall es msize sigs s start sigs',
+  msg_insert es msize sigs (s, []) start = Ok sigs' -> sigs' = sigs ++ [place s start None []].
+Proof.
+  intros es msize sigs s start sigs' H. unfold msg_insert in H.
+  destruct (mem_str (s_name s) (map s_name sigs)); [discriminate|].
+  cbn [existsb] in H.
+  match type of H with (if ?c then _ else _) = _ => destruct c; [discriminate|] end.
+  apply bind_ok in H. destruct H as [u [_ H]]. inversion H. reflexivity.
+Qed.
+
+Lemma plain_signals_fold : forall env mpos msgid msize isigs st sigs st' sigs',
+  fold_left (fun acc (p : Z * dsignal) => let '(id, ds) := p in
+      do (st0, sg) <- acc;
+      do (s, st1) <- import_signal env st0 mpos msgid id ds;
+      (let '(st2, sg2) := (st1, sg) in
+       do sg' <- msg_insert (is_enums st2) msize sg2 (s, []) (get_start_bit ds); Ok (st2, sg')))
+    isigs (Ok (st, sigs)) = Ok (st', sigs') ->
+  exists new, sigs' = sigs ++ new /\ Forall2 (sig_faithful env msgid) (map snd isigs) new /\
+              map s_id new = map fst isigs.
+Proof.
+  intros env mpos msgid msize isigs. induction isigs as [|[id ds] r IH]; intros st sigs st' sigs' H; cbn [fold_left] in H.
+  - inversion H; subst. exists []. rewrite app_nil_r. repeat split; constructor.
+  - cbn [bind] in H.
+    destruct (import_signal env st mpos msgid id ds) as [[s st1]|w] eqn:E; cbn [bind] in H.
+    2:{ rewrite fold_result_err in H; [discriminate|]. intros [i x] w'. reflexivity. }
+    destruct (msg_insert (is_enums st1) msize sigs (s, []) (get_start_bit ds)) as [sg'|w] eqn:Em; cbn [bind] in H.
+    2:{ rewrite fold_result_err in H; [discriminate|]. intros [i x] w'. reflexivity. }
+    apply IH in H. destruct H as [new [Hn [Hf Hid]]].
+    apply msg_insert_plain in Em. subst sg'.
+    apply import_signal_spec in E. destruct E as [Hi Hfa].
+    exists (place s (get_start_bit ds) None [] :: new). rewrite Hn, <- app_assoc. cbn [app map fst snd].
+    repeat split; [constructor; assumption|]. cbn. rewrite Hi, Hid. reflexivity.
+Qed.
+
+Definition no_muxor (dm : dmessage) : Prop := forallb (fun ds => negb (ds_muxor ds)) (dm_signals dm) = true.
+
+Lemma In_insert_sorted : forall {A} (ltb : A -> A -> bool) x y l, In x (insert_sorted ltb y l) <-> x = y \/ In x l.
+Proof.
+  intros A ltb x y l. induction l as [|z r IH]; cbn.
+  - split; intros [H|H]; auto. 
+  - destruct (ltb z y); cbn; [rewrite IH|]; intuition.
+Qed.
+Lemma In_sort_by : forall {A} (ltb : A -> A -> bool) x l, In x (sort_by ltb l) <-> In x l.
+Proof.
+  intros A ltb x l. induction l as [|y r IH]; cbn; [reflexivity|].
+  rewrite In_insert_sorted, IH. intuition.
+Qed.
+Lemma index_from_snd : forall {A} (l : list A) i, map snd (index_from i l) = l.
+Proof. intros A l. induction l; intros i; cbn; [reflexivity|]. rewrite IHl. reflexivity. Qed.
+Lemma filter_nil : forall {A} (p : A -> bool) l, (forall x, In x l -> p x = false) -> filter p l = [].
+Proof.
+  intros A p l. induction l as [|x r IH]; intros H; cbn; [reflexivity|].
+  rewrite (H x (or_introl eq_refl)). apply IH. intros y Hy. apply H. right. assumption.
+Qed.
+
+Lemma no_muxor_filter : forall dm, no_muxor dm ->
+  filter (fun p : Z * dsignal => ds_muxor (snd p)) (index_from 0 (sorted_signals dm)) = [].
+Proof.
+  intros dm H. apply filter_nil. intros [i ds] Hin. cbn.
+  assert (Hds : In ds (sorted_signals dm)).
+  { rewrite <- (index_from_snd (sorted_signals dm) 0). apply in_map_iff. exists (i, ds). auto. }
+  unfold sorted_signals in Hds. rewrite In_sort_by in Hds.
+  unfold no_muxor in H. rewrite forallb_forall in H. specialize (H ds Hds).
+  destruct (ds_muxor ds); [discriminate|reflexivity].
+Qed.
+
+Lemma import_message_signals_plain : forall env st mpos dm st' sigs,
+  no_muxor dm ->
+  import_message_signals env st mpos dm = Ok (st', sigs) ->
+  Forall2 (sig_faithful env (dm_id dm)) (sorted_signals dm) sigs.
+Proof.
+  intros env st mpos dm st' sigs Hn H. unfold import_message_signals in H.
+  fold (sorted_signals dm) in H. rewrite (no_muxor_filter dm Hn) in H.
+  apply plain_signals_fold in H. destruct H as [new [Hs [Hf _]]].
+  cbn [app] in Hs. subst sigs. rewrite index_from_snd in Hf. exact Hf.
+Qed.
+
+(* ---- per message relation through the message fold ---- *)
+Definition msg_comment (env : ienv) (msgid : Z) : string :=
+  match lookup Z.eqb msgid (ie_msg_desc env) with Some d => d | None => EmptyString end.
+
+Definition msg_faithful (env : ienv) (dm : dmessage) (m : message) : Prop :=
+  msg_head m = dmsg_head dm /\ m_desc m = msg_comment env (dm_id dm) /\
+  (no_muxor dm -> Forall2 (sig_faithful env (dm_id dm)) (sorted_signals dm) (m_signals m)).
+
+Lemma import_messages_fold_rel : forall env nodes dms st msgs st' msgs',
+  fold_left (fun acc dm => do a <- acc; import_message env a nodes dm) dms (Ok (st, msgs)) = Ok (st', msgs') ->
+  exists new, msgs' = msgs ++ new /\ Forall2 (msg_faithful env) dms new.
+Proof.
+  intros env nodes dms. induction dms as [|dm r IH]; intros st msgs st' msgs' H; cbn [fold_left] in H.
+  - inversion H; subst. exists []. rewrite app_nil_r. split; constructor.
+  - cbn [bind] in H.
+    destruct (import_message env (st, msgs) nodes dm) as [[st1 msgs1]|w] eqn:E.
+    + apply IH in H. destruct H as [new [Hn Hf]]. apply import_message_inv in E.
+      destruct E as [m [sigs [Hm [Hh [Hsg [Hsig [Hd _]]]]]]]. subst msgs1.
+      exists (m :: new). rewrite Hn, <- app_assoc. split; [reflexivity|].
+      constructor; [|assumption]. unfold msg_faithful. repeat split; try assumption.
+      intros Hno. rewrite Hsg. eapply import_message_signals_plain; eauto.
+    + rewrite fold_result_err in H by reflexivity. discriminate.
+Qed.
+
+Lemma Forall2_skel : forall {A B S} (R : A -> B -> Prop) (skel : B -> S) l l1 l2,
+  (forall a x y, skel x = skel y -> R a x -> R a y) ->
+  map skel l1 = map skel l2 -> Forall2 R l l1 -> Forall2 R l l2.
+Proof.
+  intros A B S R skel l l1 l2 HR Hm HF. revert l2 Hm.
+  induction HF as [|a x l l1 Hax HF IH]; intros l2 Hm.
+  - destruct l2; [constructor|discriminate].
+  - destruct l2 as [|y l2]; [discriminate|]. cbn in Hm. inversion Hm.
+    constructor; [eapply HR; eauto|]. apply IH. assumption.
+Qed.
+
+Lemma sig_faithful_skel : forall env msgid ds s s', sig_skel s = sig_skel s' ->
+  sig_faithful env msgid ds s -> sig_faithful env msgid ds s'.
+Proof.
+  intros env msgid ds s s' Hk H. unfold sig_skel in Hk. inversion Hk.
+  unfold sig_faithful in *. destruct (lookup key_eqb (msgid, ds_name ds) (ie_sig_enums env)); intuition congruence.
+Qed.
+
+Lemma msg_faithful_skel : forall env dm m m', msg_skel m = msg_skel m' ->
+  msg_faithful env dm m -> msg_faithful env dm m'.
+Proof.
+  intros env dm m m' Hk [H1 [H2 H3]]. unfold msg_skel in Hk. inversion Hk.
+  unfold msg_faithful, msg_head in *. repeat split; try congruence.
+  intros Hno. specialize (H3 Hno).
+  eapply (Forall2_skel _ sig_skel); [|eassumption|exact H3].
+  intros a x y Hxy. apply sig_faithful_skel. assumption.
+Qed.
+
+(* which signals have a value table: the keys of the VAL_ lines of signals *)
+Definition has_valenc (d : doc) (k : key) : Prop :=
+  exists ve, In ve (d_valencs d) /\ ve_signal ve = true /\ (ve_msg ve, ve_sig ve) = k.
+
+Lemma valenc_fold_keys : forall nreg ves es se es' se',
+  fold_left (fun acc ve => do a <- acc; import_value_encoding nreg a ve) ves (Ok (es, se)) = Ok (es', se') ->
+  forall k, In k (map fst se') <-> In k (map fst se) \/ exists ve, In ve ves /\ ve_signal ve = true /\ (ve_msg ve, ve_sig ve) = k.
+Proof.
+  intros nreg ves. induction ves as [|ve r IH]; intros es se es' se' H k; cbn [fold_left] in H.
+  - inversion H; subst. split; [auto|]. intros [Hin|[ve [[] _]]]. assumption.
+  - cbn [bind] in H.
+    destruct (import_value_encoding nreg (es, se) ve) as [[es1 se1]|w] eqn:E.
+    2:{ rewrite fold_result_err in H by reflexivity. discriminate. }
+    rewrite (IH _ _ _ _ H k). clear IH H.
+    unfold import_value_encoding in E. destruct (ve_signal ve) eqn:Es; cbn [negb] in E.
+    + assert (Hse : map fst se1 = (ve_msg ve, ve_sig ve) :: map fst se).
+      { destruct (find_in_registry _ _ _); [inversion E; reflexivity|].
+        apply bind_ok in E. destruct E as [e [_ E]]. inversion E. reflexivity. }
+      rewrite Hse. cbn [In]. split.
+      * intros [[Hk|Hin]|[v [Hv Hp]]]; [right; exists ve; cbn; auto | auto | right; exists v; cbn; tauto].
+      * intros [Hin|[v [[Hv|Hv] [Hp1 Hp2]]]]; [auto | subst v; left; left; assumption | right; exists v; auto].
+    + inversion E; subst. split.
+      * intros [Hin|[v [Hv Hp]]]; [auto | right; exists v; cbn; tauto].
+      * intros [Hin|[v [[Hv|Hv] [Hp1 Hp2]]]]; [auto | subst v; congruence | right; exists v; auto].
+Qed.
+
+Lemma lookup_some_in : forall {A} (k : key) (l : list (key * A)),
+  (exists v, lookup key_eqb k l = Some v) <-> In k (map fst l).
+Proof.
+  intros A k l. induction l as [|[k' v'] r IH]; cbn.
+  - split; [intros [v H]; discriminate | intros []].
+  - destruct (key_eqb k k') eqn:E.
+    + split; [intros _; left | intros _; eauto].
+      unfold key_eqb in E. apply andb_true_iff in E. destruct E as [E1 E2].
+      apply Z.eqb_eq in E1. apply String.eqb_eq in E2. destruct k, k'; cbn in *; congruence.
+    + rewrite IH. split; [auto|]. intros [H|H]; [|assumption].
+      subst k'. unfold key_eqb in E. rewrite Z.eqb_refl, String.eqb_refl in E. discriminate.
+Qed.
+
+(* import_signal_faithful (+ import_messages): the i-th message of the bus is the i-th message of
+   the file; when it has no multiplexor switch its signals are the file's signals in position
+   order, each with the file's name, position, comment, and either (no VAL_ line) kind standard
+   with the file's size, signedness, factor, offset, minimum, maximum and unit or (VAL_ line) kind enum *)
+Lemma import_signal_faithful : forall d b, import d = Ok b ->
+  exists se,
+    (forall k, (exists e, lookup key_eqb k se = Some e) <-> has_valenc d k) /\
+    Forall2 (msg_faithful (doc_env d se)) (d_messages d) (b_messages b).
+Proof.
+  intros d b H. apply import_inv in H.
+  destruct H as [reg [es [se [nodes [st4 [msgs [b1 [_ [Hv [_ [Hm [Hb Hbb]]]]]]]]]]]].
+  exists se. split.
+  - intros k. rewrite lookup_some_in. rewrite (valenc_fold_keys _ _ _ _ _ _ Hv k). cbn [map In].
+    unfold has_valenc. tauto.
+  - apply import_attributes_skel in Hb. unfold bus_skel in Hb.
+    cbn [b_name b_desc b_nodes b_enums b_messages] in Hb.
+    assert (Hk : map msg_skel msgs = map msg_skel (b_messages b1)) by congruence.
+    assert (Hb' : b_messages b = b_messages b1) by (subst b; destruct (existsb _ _); reflexivity).
+    rewrite Hb'. apply import_messages_fold_rel in Hm. destruct Hm as [new [Hn Hf]]. cbn [app] in Hn. subst new.
+    eapply (Forall2_skel _ msg_skel); [|exact Hk|exact Hf].
+    intros a x y Hxy. apply msg_faithful_skel. assumption.
+Qed.
+
+(* ------------------------------------------------------------------------------------------ *)
+(* validity of the result over the plain model: names and ids unique, references resolved       *)
+(* ------------------------------------------------------------------------------------------ *)
+Lemma mem_str_true_in : forall s l, mem_str s l = true -> In s l.
+Proof.
+  intros s l H. unfold mem_str in H. apply existsb_exists in H. destruct H as [x [Hx He]].
+  apply String.eqb_eq in He. subst. assumption.
+Qed.
+Lemma mem_z_false_not_in : forall z l, mem_z z l = false -> ~ In z l.
+Proof.
+  intros z l H Hin. unfold mem_z in H.
+  assert (existsb (Z.eqb z) l = true) by (apply existsb_exists; exists z; split; [assumption|apply Z.eqb_refl]).
+  congruence.
+Qed.
+
+Definition msg_valid (names : list string) (m : message) : Prop :=
+  In (m_sender m) names /\ incl (m_receivers m) names /\ m_size m <= 8 /\ ~ In dummy_node (m_receivers m).
+
+Lemma recs_of_not_dummy : forall dm, ~ In dummy_node (recs_of dm).
+Proof.
+  intros dm H. unfold recs_of in H. apply filter_In in H. destruct H as [_ H].
+  unfold not_dummy in H. rewrite String.eqb_refl in H. discriminate.
+Qed.
+
+Lemma import_messages_fold_valid : forall env nodes dms st msgs st' msgs',
+  fold_left (fun acc dm => do a <- acc; import_message env a nodes dm) dms (Ok (st, msgs)) = Ok (st', msgs') ->
+  NoDup (map m_canid msgs) -> Forall (msg_valid (map n_name nodes)) msgs ->
+  NoDup (map m_canid msgs') /\ Forall (msg_valid (map n_name nodes)) msgs'.
+Proof.
+  intros env nodes dms. induction dms as [|dm r IH]; intros st msgs st' msgs' H Hnd Hv; cbn [fold_left] in H.
+  - inversion H; subst. auto.
+  - cbn [bind] in H.
+    destruct (import_message env (st, msgs) nodes dm) as [[st1 msgs1]|w] eqn:E.
+    2:{ rewrite fold_result_err in H by reflexivity. discriminate. }
+    apply import_message_inv in E.
+    destruct E as [m [sigs [Hm [Hh [_ [_ [_ [_ [_ [_ [_ [_ [Hr [Ht [Hs [Hi _]]]]]]]]]]]]]]]].
+    subst msgs1. unfold msg_head, dmsg_head in Hh. injection Hh as Hc Hnm Hsz Hsn Hrc Ho.
+    eapply IH; [exact H| |].
+    + rewrite map_app. cbn. apply nodup_snoc; [assumption|]. rewrite Hc. apply mem_z_false_not_in. assumption.
+    + apply Forall_app. split; [assumption|]. constructor; [|constructor].
+      unfold msg_valid. rewrite Hsn, Hrc, Hsz. repeat split.
+      * apply mem_str_true_in. assumption.
+      * intros x Hx. rewrite forallb_forall in Hr. apply mem_str_true_in. apply Hr. assumption.
+      * assumption.
+      * apply recs_of_not_dummy.
+Qed.
+
+Lemma NoDup_filter : forall {A} (p : A -> bool) l, NoDup l -> NoDup (filter p l).
+Proof.
+  intros A p l H. induction H as [|x l Hx Hl IH]; cbn; [constructor|].
+  destruct (p x); [constructor; [|assumption]|assumption].
+  intros Hin. apply filter_In in Hin. tauto.
+Qed.
+
+Lemma import_valid : forall d b, import d = Ok b ->
+  NoDup (map n_name (b_nodes b)) /\ NoDup (map m_canid (b_messages b)) /\
+  Forall (msg_valid (map n_name (b_nodes b))) (b_messages b).
+Proof.
+  intros d b H. pose proof (import_nodes_thm d b H) as Hnames. apply import_inv in H.
+  destruct H as [reg [es [se [nodes [st4 [msgs [b1 [_ [_ [Hn [Hm [Hb Hbb]]]]]]]]]]]].
+  apply import_attributes_skel in Hb. unfold bus_skel in Hb.
+  cbn [b_name b_desc b_nodes b_enums b_messages] in Hb.
+  assert (Hk : map msg_skel (b_messages b1) = map msg_skel msgs) by congruence.
+  assert (Hkn : map node_skel (b_nodes b1) = map node_skel nodes) by congruence.
+  assert (Hb' : b_messages b = b_messages b1) by (subst b; destruct (existsb _ _); reflexivity).
+  assert (Hnn : map n_name (b_nodes b1) = map n_name nodes).
+  { apply (map_ext_skel node_skel (fun k => fst (fst k)) n_name); [reflexivity|assumption]. }
+  (* node names of the importer's node list *)
+  assert (Hnd : NoDup (map n_name nodes) /\ In dummy_node (map n_name nodes)).
+  { unfold import_nodes in Hn. apply bind_ok in Hn. destruct Hn as [ns0 [H0 Hn]].
+    destruct (mem_z 1024 (map n_id ns0)); [discriminate|]. inversion Hn; subst nodes.
+    apply import_nodes_aux_nodup in H0; [|constructor|intros []]. destruct H0 as [H1 H2].
+    rewrite map_app. cbn. split; [apply nodup_snoc; assumption|]. rewrite in_app_iff. right. left. reflexivity. }
+  destruct Hnd as [Hnd Hdummy].
+  destruct (import_messages_fold_valid _ _ _ _ _ _ _ Hm ltac:(constructor) ltac:(constructor)) as [Hc Hv].
+  assert (Hcan : NoDup (map m_canid (b_messages b1))).
+  { replace (map m_canid (b_messages b1)) with (map m_canid msgs); [assumption|].
+    symmetry. apply (map_ext_skel msg_skel (fun k => fst (fst (fst (fst (fst (fst (fst k))))))) m_canid); [reflexivity|assumption]. }
+  assert (Hval : Forall (msg_valid (map n_name nodes)) (b_messages b1)).
+  { assert (Hh : map (fun m => (m_sender m, m_receivers m, m_size m)) (b_messages b1)
+                 = map (fun m => (m_sender m, m_receivers m, m_size m)) msgs).
+    { apply (map_ext_skel msg_skel (fun k => let '(c, n, sz, o, sn, rc, dd, sg) := k in (sn, rc, sz))); [reflexivity|assumption]. }
+    clear - Hv Hh. revert Hv Hh. generalize (b_messages b1) as l1. induction msgs as [|m r IH]; intros l1 Hv Hh.
+    - destruct l1; [constructor|discriminate].
+    - destruct l1 as [|m1 l1]; [discriminate|]. cbn in Hh. inversion Hh. inversion Hv; subst.
+      constructor; [|apply IH; assumption]. unfold msg_valid in *. congruence. }
+  split; [|split].
+  - subst b. destruct (existsb _ _); [rewrite Hnn; assumption|].
+    cbn [b_nodes set_b_nodes]. rewrite <- (filter_map_comm n_name not_dummy), Hnn. apply NoDup_filter. assumption.
+  - rewrite Hb'. assumption.
+  - rewrite Hb'. subst b. destruct (existsb (fun m => (m_sender m =? dummy_node)%string) (b_messages b1)) eqn:Ee.
+    + rewrite Hnn. assumption.
+    + cbn [b_nodes set_b_nodes]. rewrite <- (filter_map_comm n_name not_dummy), Hnn.
+      (* no message is sent by the placeholder, and receivers never are the placeholder *)
+      rewrite Forall_forall in *. intros m Hin. specialize (Hval m Hin).
+      destruct Hval as [V1 [V2 [V3 V4]]]. unfold msg_valid. repeat split; try assumption.
+      * apply filter_In. split; [assumption|]. unfold not_dummy.
+        destruct (String.eqb (m_sender m) dummy_node) eqn:Es; [|reflexivity].
+        assert (existsb (fun m => (m_sender m =? dummy_node)%string) (b_messages b1) = true)
+          by (apply existsb_exists; exists m; auto). congruence.
+      * intros x Hx. apply filter_In. split; [apply V2; assumption|]. unfold not_dummy.
+        destruct (String.eqb x dummy_node) eqn:Es; [|reflexivity].
+        apply String.eqb_eq in Es. subst x. contradiction.
+Qed.
+
+(* ---- receivers = union of the signals' receivers (as a duplicate-free set without the placeholder) ---- *)
+Lemma dedup_str_in : forall l seen x, In x (dedup_str seen l) <-> In x l /\ ~ In x seen.
+Proof.
+  induction l as [|y r IH]; intros seen x; cbn.
+  - tauto.
+  - destruct (mem_str y seen) eqn:E.
+    + rewrite IH. apply mem_str_true_in in E. split; [tauto|]. intros [[H|H] Hn]; [subst; contradiction|tauto].
+    + cbn. rewrite IH. apply mem_str_false_not_in in E. cbn. split.
+      * intros [H|[H1 H2]]; [subst; tauto|tauto].
+      * intros [[H|H] Hn]; [auto|]. destruct (string_dec y x); [auto|right; tauto].
+Qed.
+Lemma dedup_str_nodup : forall l seen, NoDup (dedup_str seen l).
+Proof.
+  induction l as [|y r IH]; intros seen; cbn; [constructor|].
+  destruct (mem_str y seen); [apply IH|]. constructor; [|apply IH].
+  rewrite dedup_str_in. cbn. tauto.
+Qed.
+
+Lemma recs_of_spec : forall dm r,
+  In r (recs_of dm) <-> r <> dummy_node /\ exists s, In s (dm_signals dm) /\ In r (ds_receivers s).
+Proof.
+  intros dm r. unfold recs_of. rewrite filter_In, dedup_str_in, in_flat_map. unfold not_dummy.
+  split.
+  - intros [[[s [Hs Hr]] _] Hd]. split.
+    + intros ->. rewrite String.eqb_refl in Hd. discriminate.
+    + exists s. unfold sorted_signals in Hs. rewrite In_sort_by in Hs. auto.
+  - intros [Hd [s [Hs Hr]]]. split; [split; [|tauto]|].
+    + exists s. unfold sorted_signals. rewrite In_sort_by. auto.
+    + destruct (String.eqb r dummy_node) eqn:E; [apply String.eqb_eq in E; contradiction|reflexivity].
+Qed.
+Lemma recs_of_nodup : forall dm, NoDup (recs_of dm).
+Proof. intros dm. unfold recs_of. apply NoDup_filter, dedup_str_nodup. Qed.
+
+(* ------------------------------------------------------------------------------------------ *)
+(* full statement of signal faithfulness (what is NOT proved yet is marked)                     *)
+(* ------------------------------------------------------------------------------------------ *)
+Definition valenc_values (d : doc) (k : key) (vals : list (Z * string)) : Prop :=
+  exists ve rest, d_valencs d = rest ++ [ve] ++ filter (fun v => negb (ve_signal v && key_eqb k (ve_msg v, ve_sig v))) (d_valencs d)
+                  /\ vals = sort_by (fun a b => fst a <? fst b) (ve_values ve).
+
+(* every signal of every message, multiplexed or not, at its absolute position, with the file's
+   size; value table => enum with exactly those values; otherwise the file's type data.
+   Proved: import_signal_faithful (messages without multiplexor switch; kind, position, comment,
+   type data).  Not proved: the enum VALUES and the enum signal's SIZE, and messages with
+   multiplexor switches (these are covered by the correspondence run only). *)
+Definition import_signal_faithful_full_statement : Prop :=
+  forall d b, import d = Ok b ->
+  exists se, (forall k, (exists e, lookup key_eqb k se = Some e) <-> has_valenc d k) /\
+  Forall2 (fun dm m =>
+    forall ds, In ds (dm_signals dm) ->
+    exists s, In s (m_signals m) /\ s_name s = ds_name ds /\
+      abs_start (length (m_signals m)) (m_signals m) s = get_start_bit ds /\
+      (match s_kind s with KMux => sel_width s | _ => sig_size (b_enums b) s end) = ds_size ds /\
+      s_desc s = sig_comment (doc_env d se) (dm_id dm) (ds_name ds) /\
+      (ds_muxor ds = true -> s_kind s = KMux) /\
+      (ds_muxor ds = false -> has_valenc d (dm_id dm, ds_name ds) ->
+         s_kind s = KEnum /\ exists vals, valenc_values d (dm_id dm, ds_name ds) vals /\
+                                          sorted_enum_values (nth_enum (b_enums b) (s_enum s)) = vals) /\
+      (ds_muxor ds = false -> ~ has_valenc d (dm_id dm, ds_name ds) ->
+         s_kind s = KStandard /\ s_signed s = ds_signed ds /\ s_scale s = ds_factor ds /\
+         s_offset s = ds_offset ds /\ s_min s = ds_min ds /\ s_max s = ds_max ds /\ s_unit s = ds_unit ds))
+    (d_messages d) (b_messages b).
+
+(* ------------------------------------------------------------------------------------------ *)
+(* the hypotheses are satisfiable: a document with two nodes, a Motorola message with a signal   *)
+(* narrower than a byte, a value table, a comment, a float attribute whose default is written    *)
+(* as an integer, and a message without transmitter                                            *)
+(* ------------------------------------------------------------------------------------------ *)
+Local Open Scope string_scope.
+Definition example_doc : doc :=
+  mkdoc "ex.dbc" ["ECU"; "GW"] [mkdvaltable "OnOff" [(0, "off"); (1, "on")]]
+    [ mkdmessage 256 "Status" 2 "ECU"
+        [ mkdsignal "speed" false false 0 10 3 BigEndian false (mkfl 1 (-1)) fl_zero fl_zero (mkfl 1023 (-1)) "km/h" ["GW"];
+          mkdsignal "state" false false 0 2 7 BigEndian false fl_one fl_zero fl_zero fl_one "" ["GW"; "Vector__XXX"] ];
+      mkdmessage 512 "Orphan" 1 "Vector__XXX"
+        [ mkdsignal "flag" false false 0 1 0 LittleEndian false fl_one fl_zero fl_zero fl_one "" ["Vector__XXX"] ] ]
+    [ mkdcomment OSignal "vehicle speed" "" 256 "speed" ]
+    [ mkdattr OMessage AFloat "Weight" 0 0 0 0 fl_zero (mkfl 100 0) [] ]
+    [ mkdattrdef VInt "Weight" "" 7 0 fl_zero ]
+    [ mkdattrval OMessage VFloat "Weight" "" 256 "" "" 0 0 (mkfl 5 (-1)) ]
+    [ mkdvalenc true 256 "state" [(1, "on"); (0, "off")] ]
+    [].
+
+Example import_example :
+  exists b, import example_doc = Ok b /\
+    map n_name (b_nodes b) = ["ECU"; "GW"; "Vector__XXX"]%string /\
+    map (fun m => (m_canid m, m_sender m, m_receivers m)) (b_messages b)
+      = [(256, "ECU", ["GW"]); (512, "Vector__XXX", [])]%string /\
+    no_muxor (nth 0 (d_messages example_doc) (mkdmessage 0 "" 0 "" [])) /\
+    map (fun s => (s_name s, s_rel s, s_kind s)) (m_signals (nth 0 (b_messages b) (mkmessage 0 "" 0 LittleEndian 0 0 0 0 "" [] "" [] [])))
+      = [("state", 0, KEnum); ("speed", 4, KStandard)]%string.
+Proof. eexists. split; [vm_compute; reflexivity|]. repeat split. Qed.
